@@ -843,10 +843,26 @@ func (g *G) roundScript() {
 		salt, vd string
 	}
 	var cms []cm
+	// one round in three, everybody reports the same owner for every external NFT of the history: one tally decides them all
+	common := ""
+	if r.P(1, 3) && len(g.ext) > 0 {
+		seen := map[extNft]bool{}
+		var es []string
+		for _, n := range g.ext {
+			if !seen[n] && len(es) < 6 {
+				seen[n] = true
+				es = append(es, e(g.entry(n, ownerStrs[0])))
+			}
+		}
+		common = "O:" + strings.Join(es, ",")
+	}
 	for v := 0; v < world.NVal; v++ {
 		if r.P(4, 5) {
 			salt := fmt.Sprintf("s%d", r.N(1000))
 			vd := g.voteData(v)
+			if common != "" && r.P(9, 10) {
+				vd = common
+			}
 			g.emit("prevote o%d v%d %s %d", v, v, e(VoteHash(salt, vd)), rs)
 			cms = append(cms, cm{v, salt, vd})
 			if r.P(1, 6) {
